@@ -288,6 +288,10 @@ func runC18(res *lib.Result, tier string, seed int64, args []string) error {
 			} else {
 				main = append(main, fmt.Sprintf("local m%d = require(\"%s\")", i, m))
 			}
+			if i%3 == 1 {
+				// non-ASCII text in front of the require on its line (UTF-16 columns and byte indexes differ), and a name behind it
+				main[len(main)-1] = fmt.Sprintf("local zs%d = \"\u65e5\u672c\u8a9e\u65e5\u672c\u8a9e\"; ", i) + main[len(main)-1] + fmt.Sprintf("; print(1234, zs%d)", i)
+			}
 			main = append(main, fmt.Sprintf("print(m%d.who)", i))
 		}
 		files[t.cur] = strings.Join(main, "\n") + "\n"
@@ -321,7 +325,18 @@ func runC18(res *lib.Result, tier string, seed int64, args []string) error {
 				}
 			}
 			line := main[2*i]
-			col := strings.Index(line, "\"") + 1
+			// the first character of the module string (behind the quote that follows `require` / `dofile`), as a UTF-16 column
+			bcol := strings.Index(line, "\"") + 1
+			if k := strings.Index(line, "require"); k >= 0 {
+				bcol = k + strings.Index(line[k:], "\"") + 1
+			}
+			col := utf16Len(line[:bcol])
+			if k := strings.LastIndex(line, "zs"); k > bcol {
+				// the name behind the require on the same line is an ordinary local: hover shows it, not a file
+				if h, err := sess.Hover(t.cur, 2*i, utf16Len(line[:k])); err == nil && strings.Contains(h, "lua file") {
+					res.AddViolation("impl-vs-spec", fmt.Sprintf("hover on the local %s behind a require on its line answers %q", line[k:k+3], lib.Trunc(h, 80)), fmt.Sprintf("%s line %d: %s", t.cur, 2*i, line), false)
+				}
+			}
 			locs, err := sess.Definition(t.cur, 2*i, col)
 			if err != nil {
 				return o, err
